@@ -3,7 +3,7 @@ def _agree(rec):
          ok <hex> / okj / err / panic   exact (hand-modelled decoders; schema decoder on canonical writer-form input)
          accept                         the implementation must accept (schema-valid value in another byte form)
          oke <hex>                      `ok <hex>` or `err` (the model stops before an external validity check)
-         any                            no prediction (the model is stricter than the code here, or the entry point is observed only)
+         any                            no prediction (between the strict and the lenient model, or the entry point is observed only)
        A case whose verdict already fails is reported through the verdict, not as a disagreement."""
     m, i = rec["model"], rec["impl"]
     if str(rec.get("idx", "")).startswith("#"):
@@ -54,7 +54,7 @@ CFG = {
                   "compiled code on ALL inputs) is decided by observation on the explored inputs only - it is not a theorem. Not covered: wasm32 "
                   "targets (usize = 32 bits, JsError paths), recursion deeper than the generated nesting (256), allocation behaviour other "
                   "than on this machine, bech32/hex/serde_json/num-bigint internals (external crates, observed only). No axioms.",
-    "theorems": ["C02_model_total", "C02_ledger_total", "C02_reserialise_wf", "C02_reserialise_full", "C02_reserialise_after_decode_wf",
+    "theorems": ["C02_model_total", "C02_ledger_total", "C02_reserialise_wf", "C02_reserialise_full", "C02_reserialise_after_decode_wf", "C02_lenient_covers_strict", "C02_decoder_consumes",
                  "C02_address_total", "C02_byron_total", "C02_third_element_total", "C02_bounded_bytes_total", "C02_from_hex_total",
                  "C02_hash_total", "C02_xprv_total", "C02_nint_writer_total", "C02_json_number_total", "C02_emip3_total",
                  "C02_witness_special_total", "C02_native_script_schema_total", "C02_legacy_panics_refuted", "C02_huge_length_refuted",
@@ -74,6 +74,9 @@ CFG = {
             "integer extremes, raw key/hash lengths, EMIP-3 container lengths); malformed hex / bech32 (valid checksum with bad padding) / "
             "base58 / JSON text; sweep: every input of length <= 1 for every entry point, length 2 sampled (quick) or complete (thorough) - "
             "error results of the sweep are counted per decoder (`sweep` lines), everything else is an individual case; "
+            "predictions: hand models exact; schema decoder (strict) exact on canonical writer-form input and `accept` on other valid "
+            "input; lenient acceptor Total/Lax.v (every byte form the readers tolerate) and the generic well-formedness parser give "
+            "`err` for what they refuse - about 83% of the individual cases carry an exact prediction; "
             "non-trivial = distinct case on which the model commits to a non-error outcome or the implementation accepted",
     "trusted_base": [
         "Total/Decoders.v: hand models of the Rust decoders listed in its header (model, not spec), incl. the cbor_event primitives they call",
